@@ -13,6 +13,7 @@ small_int_costs = st.integers(-50, 50)
 nonneg_int_costs = st.integers(0, 50)
 dyadic_costs = st.integers(-200, 200).map(lambda k: k / 4)
 mixed_costs = st.one_of(small_int_costs, small_int_costs, dyadic_costs)
+tie_costs = st.integers(0, 2)
 
 
 def nested_table(draw, shape, costs):
@@ -88,6 +89,9 @@ def dcops(draw, min_vars=1, max_vars=6, max_dom=3, min_dom=1, max_constraints=7,
     n = draw(st.integers(min_vars, max_vars))
     names = draw(st.lists(st.sampled_from(NAME_POOL), min_size=n, max_size=n, unique=True))
     objective = draw(st.sampled_from(list(objectives)))
+    if costs is mixed_costs:
+        # one case in three draws every cost from {0,1,2}: equal gains / ties between neighbours become common
+        costs = draw(st.sampled_from([mixed_costs, mixed_costs, tie_costs]))
     if nonneg_min and objective == "min":
         costs = nonneg_int_costs
         kinds = ("matrix",)  # generated expressions have negative coefficients
@@ -163,13 +167,20 @@ def dcops(draw, min_vars=1, max_vars=6, max_dom=3, min_dom=1, max_constraints=7,
             "constraints": constraints}
 
 
+def slow_sets():
+    """Indices (mod #computations) of computations the scheduler serves last; mostly empty."""
+    return st.one_of(st.just([]), st.just([]), st.lists(st.integers(0, 7), min_size=1, max_size=2))
+
+
 def schedules(max_len=60):
     """A delivery/start schedule: list of ints interpreted by SimNet.  Mix of near-canonical
     (short), long uniform and adversarial (skewed towards extreme indices) shapes."""
     uni = st.lists(st.integers(0, 1000), max_size=max_len)
     short = st.lists(st.integers(0, 1000), max_size=6)
     skew = st.lists(st.sampled_from([0, 0, 0, 1, 999, 999, 998]), max_size=max_len)
-    return st.one_of(short, uni, uni, skew)
+    base = st.one_of(short, uni, uni, skew)
+    # optional prefix declaring slow computations (see vf/simnet.py: entries >= 10000)
+    return st.tuples(slow_sets(), base).map(lambda t: [10000 + i for i in t[0]] + t[1])
 
 
 def dcop_labels(desc):
